@@ -7,7 +7,7 @@
 From Coq Require Import List Arith ZArith Bool Reals.
 From T4V Require Import Base.Scalar C07.Model C07.ProofsAlgebra C07.ProofsComb C07.ProofsMain
   C07.ProofsGeom C07.ProofsExample C07.ProofsDomain C07.ProofsRhp C07.ModelDevelop C07.ProofsDevelop
-  C07.ProofsErrors C07.LinkC03 C07.ProofsCaps C07.ProofsFlip.
+  C07.ProofsErrors C07.LinkC03 C07.ProofsCaps C07.ProofsFlip C07.ProofsFlipSet C07.LinkC04.
 Import ListNotations.
 Open Scope R_scope.
 
@@ -22,14 +22,12 @@ Theorem C07_plane_intersection_on_both : forall p1 n1 p2 n2 : rvec,
     on_plane pt (p1, n1) /\ on_plane pt (p2, n2) /\
     d = vscale (1 / sqrt (dot (cross n1 n2) (cross n1 n2))) (cross n1 n2).
 Proof. exact plane_intersection. Qed.
-Print Assumptions C07_plane_intersection_on_both.
 
 Theorem C07_plane_intersection_direction : forall n1 n2 : rvec,
   cross n1 n2 <> (0, 0, 0) ->
   let d := vscale (1 / sqrt (dot (cross n1 n2) (cross n1 n2))) (cross n1 n2) in
   dot d n1 = 0 /\ dot d n2 = 0 /\ dot d d = 1.
 Proof. exact plane_intersection_direction. Qed.
-Print Assumptions C07_plane_intersection_direction.
 
 (* projection along a direction that is not parallel to the plane *)
 Theorem C07_project_on_plane : forall pt pp n dir : rvec,
@@ -38,7 +36,6 @@ Theorem C07_project_on_plane : forall pt pp n dir : rvec,
     projectPointOnPlane RS pt (pp, n) dir = Ok q /\
     on_plane q (pp, n) /\ q = vadd pt (vscale t dir) /\ t = dot (vsub pp pt) n / dot dir n.
 Proof. exact project_on_plane. Qed.
-Print Assumptions C07_project_on_plane.
 
 (* a3: top projection minus bottom projection is along the axis and carries
    the eighth plane onto the seventh *)
@@ -50,7 +47,6 @@ Theorem C07_axial_vector : forall (v axis p7 n7 p8 n8 : rvec) (lam : R),
     vsub top bottom = vscale t axis /\
     forall q, on_plane q (p8, n8) -> on_plane (vadd q (vsub top bottom)) (p7, n7).
 Proof. exact axial_vector. Qed.
-Print Assumptions C07_axial_vector.
 
 (* the algebraic fact the code relies on: in a centrally symmetric hexagon
    w0..w5 the difference of the first and third vertex of a traversal that
@@ -69,7 +65,6 @@ Theorem C07_hex_translation : forall c w0 w1 w2 : rvec,
     dot (vsub p w0) n <= 0 ->
     0 <= dot (vsub (vadd p t) w0) n /\ dot (vsub (vsub p t) w2) n <= 0.
 Proof. exact hex_translation. Qed.
-Print Assumptions C07_hex_translation.
 
 (* ---------- geometry: reduction of areHexSidesAdjacent ---------- *)
 
@@ -82,7 +77,6 @@ Theorem C07_side_constant_along_line : forall (n1 n2 p1 p2 q q' : rvec) (other :
   on_plane q' (p1, n1) -> on_plane q' (p2, n2) ->
   planeSide RS q other = planeSide RS q' other.
 Proof. exact side_constant_along_line. Qed.
-Print Assumptions C07_side_constant_along_line.
 
 (* areHexSidesAdjacent is decided by the sides of ANY common point of the two planes *)
 Theorem C07_adjacent_at_vertex : forall (p1 n1 p2 n2 V : rvec) (o1 o2 : rplane) (s1 s2 : Z),
@@ -96,7 +90,6 @@ Theorem C07_adjacent_at_vertex : forall (p1 n1 p2 n2 V : rvec) (o1 o2 : rplane) 
     Ok (if Z.eqb s1 (planeSide RS V o1) && Z.eqb s2 (planeSide RS V o2)
         then Some (pt, d) else None).
 Proof. exact adjacent_at_vertex. Qed.
-Print Assumptions C07_adjacent_at_vertex.
 
 (* ---------- combinatorics: the traversal on the 48 listing orders ---------- *)
 
@@ -105,7 +98,6 @@ Print Assumptions C07_adjacent_at_vertex.
 Theorem C07_admissible_listings : forall l : list nat,
   admissible l = true <-> In l all_listings.
 Proof. exact admissible_iff. Qed.
-Print Assumptions C07_admissible_listings.
 
 (* for each of the 48 listing orders and every first_side in 0..5 (the code
    uses 0 and 2): hexSortSides' loop accepts the adjacency (six intersections)
@@ -119,14 +111,12 @@ Theorem C07_sort_and_vertices_all_orders : forall (l : list nat) (first : nat),
     (forall k, In k ks -> (fst k < snd k < 6)%nat /\ adjb_of_listing l (fst k) (snd k) = true) /\
     (map (vertex_of l) ks = fwd (side_at l first) \/ map (vertex_of l) ks = bwd (side_at l first)).
 Proof. exact sort_and_vertices_all_orders. Qed.
-Print Assumptions C07_sort_and_vertices_all_orders.
 
 (* the unbounded [while] loop of hexVertices terminates on every hexagon *)
 Theorem C07_walk_never_hangs_on_hexagons : forall (l : list nat) (first : nat),
   In l all_listings -> (first < 6)%nat ->
   exists ks, hex_vertices_abs (adjb_of_listing l) first = Ok ks /\ List.length ks = 6%nat.
 Proof. exact walk_never_hangs_on_hexagons. Qed.
-Print Assumptions C07_walk_never_hangs_on_hexagons.
 
 Example C07_listing_example :
   In [4; 1; 0; 3; 5; 2]%nat all_listings /\
@@ -178,7 +168,6 @@ Theorem C07_hex_base_vectors_partial :
         tau = dot (vsub (fst (pl surfs 6)) (fst (pl surfs 7))) (snd (pl surfs 6)) / dot u (snd (pl surfs 6)) /\
         forall q, on_plane q (pl surfs 7) -> on_plane (vadd q (vscale tau u)) (pl surfs 6))).
 Proof. exact hex_base_vectors_partial. Qed.
-Print Assumptions C07_hex_base_vectors_partial.
 
 (* what the shift along the axis does: nothing to a vector perpendicular to the
    axis (hexagon drawn perpendicular to the axis, six planes), and in general
@@ -190,7 +179,6 @@ Theorem C07_proj_par_meaning : forall u nrm x : rvec,
   (exists t, proj_par u nrm x = vadd x (vscale t u)) /\
   (dot x nrm = 0 -> proj_par u nrm x = x).
 Proof. exact proj_par_meaning. Qed.
-Print Assumptions C07_proj_par_meaning.
 
 (* ---------- geometry of a strictly convex centrally symmetric hexagon ---------- *)
 
@@ -218,7 +206,6 @@ Theorem C07_hex_adjacency_geometry :
     else forall X, on_plane X (pl surfs i) -> on_plane X (pl surfs j) ->
                    ~ (inside surfs k1 X /\ inside surfs (k1 + 1) X).
 Proof. exact hex_adjacency_geometry. Qed.
-Print Assumptions C07_hex_adjacency_geometry.
 
 (* ---------- C07: the base vectors of every admissible hexagonal prism ---------- *)
 
@@ -257,7 +244,6 @@ Theorem C07_hex_base_vectors :
         tau = dot (vsub (fst (pl surfs 6)) (fst (pl surfs 7))) (snd (pl surfs 6)) / dot u (snd (pl surfs 6)) /\
         forall q, on_plane q (pl surfs 7) -> on_plane (vadd q (vscale tau u)) (pl surfs 6))).
 Proof. exact hex_base_vectors. Qed.
-Print Assumptions C07_hex_base_vectors.
 
 (* "a1 carries the unit cell across the first-listed plane, a2 across the
    third-listed plane": the vectors returned (sheared or not) map the plane listed
@@ -276,7 +262,6 @@ Theorem C07_base_vector_carries_opposite_plane :
     (on_plane q (pl surfs 1) -> on_plane (vadd q (proj_par u nrm (across c w (side_at l 0)))) (pl surfs 0)) /\
     (on_plane q (pl surfs 3) -> on_plane (vadd q (proj_par u nrm (across c w (side_at l 2)))) (pl surfs 2)).
 Proof. exact base_vector_carries_opposite_plane. Qed.
-Print Assumptions C07_base_vector_carries_opposite_plane.
 
 (* the regular hexagon c +- e1, c +- (e1/2 + h e2), c +- (-e1/2 + h e2)
    (e1, e2 perpendicular of equal length, h = sqrt 3 / 2) and all its affine
@@ -287,7 +272,6 @@ Theorem C07_regular_hexagon_in_family : forall (c e1 e2 u : rvec) (h : R),
   (forall k, 0 < det3 (vsub (wv (hexagon_of c e1 e2 h) (k + 1)) (wv (hexagon_of c e1 e2 h) k))
                       (vsub (wv (hexagon_of c e1 e2 h) (k + 2)) (wv (hexagon_of c e1 e2 h) (k + 1))) u).
 Proof. exact regular_hexagon_in_family. Qed.
-Print Assumptions C07_regular_hexagon_in_family.
 
 (* non-vacuity: a concrete irregular prism with eight planes, mixed senses and
    points, listing 0 3 1 4 2 5 — every hypothesis of C07_hex_base_vectors holds
@@ -309,12 +293,10 @@ Theorem C07_domain_check_spec : forall (nvec : nat) (bounds : list (Z * Z)),
   domain_check nvec bounds = Ok tt <->
   (nvec <= List.length bounds)%nat /\ Forall (fun r => fst r = snd r) (skipn nvec bounds).
 Proof. exact domain_check_spec. Qed.
-Print Assumptions C07_domain_check_spec.
 
 Theorem C07_domain_check_error : forall (nvec : nat) (bounds : list (Z * Z)),
   domain_check nvec bounds = Ok tt \/ domain_check nvec bounds = Err ELattice.
 Proof. exact domain_check_error. Qed.
-Print Assumptions C07_domain_check_error.
 
 Example C07_domain_check_examples :
   domain_check 2 [(-1, 1); (0, 0); (0, 0)]%Z = Ok tt /\
@@ -329,7 +311,6 @@ Theorem C07_lattice_vector : forall (a1 a2 a3 : rvec) (i j k : Z),
   vadd (vadd (vscale (IZR i) a1) (vscale (IZR j) a2)) (vscale (IZR k) a3) /\
   latticeVector RS [a1; a2] [i; j; k] = vadd (vscale (IZR i) a1) (vscale (IZR j) a2).
 Proof. exact lattice_vector. Qed.
-Print Assumptions C07_lattice_vector.
 
 (* ---------- from the RHP / HEX card to the base vectors ---------- *)
 
@@ -358,7 +339,6 @@ Theorem C07_rhp_cell_hypotheses :
     (forall q, pf (pl surfs 6) q = dot (vsub q (vadd c h)) h / norm h) /\
     (forall q, pf (pl surfs 7) q = dot (vsub q c) h / norm h).
 Proof. exact rhp_cell_hypotheses. Qed.
-Print Assumptions C07_rhp_cell_hypotheses.
 
 (* ... and therefore, for a strictly convex hexagon drawn in the plane through v
    perpendicular to h, the base vectors computed from the card are the
@@ -377,7 +357,6 @@ Theorem C07_rhp15_lattice_vectors :
    (forall k, det3 (vsub (wv w (k + 1)) (wv w k)) (vsub (wv w (k + 2)) (wv w (k + 1))) h < 0)) ->
   hexLatticeBaseVectors_rhp RS (params15 c h r s t) = Ok [across c w a; across c w b; h].
 Proof. exact rhp_lattice_vectors. Qed.
-Print Assumptions C07_rhp15_lattice_vectors.
 
 (* nine entries v h r, r perpendicular to h (the regular prism of the manual):
    the code completes the card with s, t = r rotated by 60 and 120 degrees about
@@ -390,7 +369,6 @@ Theorem C07_rhp9_lattice_vectors : forall c h r : rvec,
   rotate RS r (unit_of h) (PI / 3) =
   vadd (vscale (1 / 2) r) (vscale (sqrt 3 / 2) (cross (unit_of h) r)).
 Proof. exact rhp9_lattice_vectors. Qed.
-Print Assumptions C07_rhp9_lattice_vectors.
 
 (* ---------- the elements of a hexagonal lattice, end to end on the models ---------- *)
 
@@ -437,7 +415,6 @@ Theorem C07_hex_lattice_developed :
       let v := nth (Z.to_nat (I6.flat_index bs (M6.ne_index e))) spec 0%Z in
       v <> 0%Z /\ D6.elem_located cell vecs v e) elems.
 Proof. exact hex_lattice_developed. Qed.
-Print Assumptions C07_hex_lattice_developed.
 
 (* ---------- outside the family: the error behaviour of the model ---------- *)
 
@@ -446,14 +423,12 @@ Theorem C07_base_vectors_wrong_count : forall surfs : list rsurf,
   List.length surfs <> 6%nat -> List.length surfs <> 8%nat ->
   hexLatticeBaseVectors RS surfs = Err EAssert.
 Proof. exact base_vectors_wrong_count. Qed.
-Print Assumptions C07_base_vectors_wrong_count.
 
 (* pointInPlaneIntersection raises exactly on parallel planes (ZeroDivisionError) *)
 Theorem C07_intersection_error_iff : forall p1 n1 p2 n2 : rvec,
   (pointInPlaneIntersection RS (p1, n1) (p2, n2) = Err EZeroDiv <-> cross n1 n2 = (0, 0, 0)) /\
   (cross n1 n2 <> (0, 0, 0) -> exists L, pointInPlaneIntersection RS (p1, n1) (p2, n2) = Ok L).
 Proof. exact intersection_error_iff. Qed.
-Print Assumptions C07_intersection_error_iff.
 
 (* hexSortSides on six planes has three outcomes: ZeroDivisionError iff two
    planes of different groups are parallel; else the dictionary with exactly six
@@ -468,7 +443,6 @@ Theorem C07_sort_sides_outcomes : forall surfs : list rsurf,
    ((exists adj, hexSortSides RS surfs = Ok adj /\ count_some adj = 6%nat) \/
     hexSortSides RS surfs = Err ELattice)).
 Proof. exact sort_sides_outcomes. Qed.
-Print Assumptions C07_sort_sides_outcomes.
 
 (* degenerate prisms: two side planes of different groups parallel =>
    ZeroDivisionError from hexLatticeBaseVectors, whatever the other planes *)
@@ -478,7 +452,6 @@ Theorem C07_base_vectors_parallel_planes : forall surfs : list rsurf,
                cross (snd (pl surfs i)) (snd (pl surfs j)) = (0, 0, 0)) ->
   hexLatticeBaseVectors RS surfs = Err EZeroDiv.
 Proof. exact base_vectors_parallel_planes. Qed.
-Print Assumptions C07_base_vectors_parallel_planes.
 
 (* ... which is what a non strictly convex hexagon gives: two consecutive sides
    on one line (a flat vertex) have parallel planes *)
@@ -489,7 +462,6 @@ Theorem C07_collinear_sides_parallel : forall (u q0 q1 q2 : rvec) (pa pb : rplan
   dot (snd pb) u = 0 -> on_plane q1 pb -> on_plane q2 pb ->
   cross (snd pa) (snd pb) = (0, 0, 0).
 Proof. exact collinear_sides_parallel. Qed.
-Print Assumptions C07_collinear_sides_parallel.
 
 (* the while loop of hexVertices, on EVERY dictionary with exactly six
    intersections among the twelve pairs of different groups (924 dictionaries x 6
@@ -501,14 +473,12 @@ Theorem C07_walk_ends_iff_closed_tour : forall (ps : list (nat * nat)) (first : 
    exists ks, hex_vertices_abs (pair_in ps) first = Ok ks /\ List.length ks = 6%nat) \/
   (closed_tour ps = false /\ hex_vertices_abs (pair_in ps) first = Err ELoop).
 Proof. exact walk_ends_iff_closed_tour. Qed.
-Print Assumptions C07_walk_ends_iff_closed_tour.
 
 (* any other number of intersections: LatticeError before the traversal *)
 Theorem C07_sort_count_error : forall adjb : nat -> nat -> bool,
   (exists adj, sort_sides_abs adjb = Ok adj /\ count_some adj = 6%nat) \/
   sort_sides_abs adjb = Err ELattice.
 Proof. exact sort_count_error. Qed.
-Print Assumptions C07_sort_count_error.
 
 Example C07_open_chain_never_ends :
   hex_vertices_abs (pair_in [(0, 2); (0, 4); (1, 3); (1, 5); (2, 4); (3, 5)]%nat) 0 = Err ELoop.
@@ -523,14 +493,12 @@ Proof. vm_compute. reflexivity. Qed.
 Theorem C07_rhp_is_C03_rhp_linked : forall (T : Type) (S : Scalar T) (p : list T),
   res03 (rhp S p) = M3.rhp S p.
 Proof. exact @rhp_is_C03_rhp. Qed.
-Print Assumptions C07_rhp_is_C03_rhp_linked.
 
 (* the definition executed by tie:develophex is the develop_lattice_hex of
    C07_hex_lattice_developed *)
 Theorem C07_develop_lattice_hex_is_tied : forall (dic : Z -> list rsurf) (ids : list Z) (cell : M6.lat_cell (T:=R)),
   develop_lattice_hex_gen RS dic ids cell = develop_lattice_hex (extract_surfaces dic ids) cell.
 Proof. exact develop_lattice_hex_is_gen. Qed.
-Print Assumptions C07_develop_lattice_hex_is_tied.
 
 (* an admissible prism whose seventh or eighth plane is parallel to the axis:
    ZeroDivisionError (hexVertices' first projection, or the projection on the
@@ -547,7 +515,6 @@ Theorem C07_caps_parallel_to_axis :
   dot u (snd (pl surfs 6)) = 0 \/ dot u (snd (pl surfs 7)) = 0 ->
   hexLatticeBaseVectors RS surfs = Err EZeroDiv.
 Proof. exact caps_parallel. Qed.
-Print Assumptions C07_caps_parallel_to_axis.
 
 (* an admissible prism with exactly one of its six side senses flipped (the cell
    written on the wrong side of the plane listed at position i0): the two
@@ -566,4 +533,104 @@ Theorem C07_flipped_sense_lattice_error :
   (List.length surfs = 6%nat \/ List.length surfs = 8%nat) ->
   hexLatticeBaseVectors RS surfs = Err ELattice.
 Proof. exact flipped_sense_lattice_error. Qed.
-Print Assumptions C07_flipped_sense_lattice_error.
+
+(* ANY set of flipped side senses (fl = table of the six positions): the
+   dictionary of hexSortSides holds exactly 6 - (number of flipped senses)
+   intersections — all 48 orders x 64 subsets by vm_compute on top of the per-pair
+   geometry — hence LatticeError as soon as one sense is wrong; never a wrong
+   set of base vectors, never the endless loop *)
+Theorem C07_flipped_set_lattice_error :
+  forall (c u : rvec) (w : nat -> rvec) (l : list nat) (surfs : list rsurf) (fl : list bool),
+  In l all_listings -> In fl (bool_lists 6) ->
+  (forall i, (i < 6)%nat -> carries u w (pl surfs i) (side_at l i)) ->
+  (forall i, (i < 6)%nat ->
+     sd surfs i = (if nth i fl false then - planeSide RS c (pl surfs i) else planeSide RS c (pl surfs i))%Z /\
+     sd surfs i <> 0%Z) ->
+  (forall k, wv w (k + 3) = vsub (vscale 2 c) (wv w k)) ->
+  ((forall k, 0 < det3 (vsub (wv w (k + 1)) (wv w k)) (vsub (wv w (k + 2)) (wv w (k + 1))) u) \/
+   (forall k, det3 (vsub (wv w (k + 1)) (wv w k)) (vsub (wv w (k + 2)) (wv w (k + 1))) u < 0)) ->
+  (List.length surfs = 6%nat \/ List.length surfs = 8%nat) ->
+  (exists ca, sort_pairs (hex_adjf RS (firstn 6 surfs)) hex_pairs = Ok ca /\
+              count_some ca = (6 - List.length (filter (fun k => nth k fl false) (seq 0 6)))%nat) /\
+  (existsb (fun k => nth k fl false) (seq 0 6) = true -> hexLatticeBaseVectors RS surfs = Err ELattice).
+Proof. exact flipped_set_lattice_error. Qed.
+
+(* ANY plane list whatever (planes that carry no hexagon, random planes, ...):
+   the complete list of outcomes of hexLatticeBaseVectors — base vectors (two for
+   six planes, three for eight), AssertionError exactly when there are neither
+   six nor eight planes, ZeroDivisionError, LatticeError, or the endless loop;
+   nothing else (no StopIteration from next(...), no IndexError) *)
+Theorem C07_base_vectors_outcomes : forall surfs : list rsurf,
+  (exists vs, hexLatticeBaseVectors RS surfs = Ok vs /\ List.length vs = (List.length surfs / 2 - 1)%nat) \/
+  (hexLatticeBaseVectors RS surfs = Err EAssert /\ List.length surfs <> 6%nat /\ List.length surfs <> 8%nat) \/
+  ((List.length surfs = 6%nat \/ List.length surfs = 8%nat) /\
+   (hexLatticeBaseVectors RS surfs = Err EZeroDiv \/ hexLatticeBaseVectors RS surfs = Err ELattice \/
+    hexLatticeBaseVectors RS surfs = Err ELoop)).
+Proof. exact base_vectors_outcomes. Qed.
+
+(* ---------- link with C04 (coordinate transformations) ---------- *)
+
+(* A hexagonal prism under TRCL / a TRn on its plane cards.  moved_surfs o b is
+   what C04's model of Transformation.transformation does to every plane frame
+   (first conjunct: point -> O + B^T point = C04's to_main, normal -> B^T normal =
+   C04's tvec); for rows_orthonormal b (C04's spec of a TR card) and an admissible
+   prism (hypotheses of C07_hex_base_vectors; with eight planes, parallel caps),
+   hexLatticeBaseVectors of the moved planes is the rotated list: a_i' = B^T a_i *)
+Theorem C07_hex_base_vectors_trcl_linked :
+  forall (o : S4.R3) (b : V4.M3 R) (c u : rvec) (w : nat -> rvec) (l : list nat) (surfs : list rsurf),
+  (forall (P N : rvec) cp nap,
+     C04.Model.transformation RS (V4.vlist o ++ V4.mlist b) (C04.Model.mkMS C04.Model.KP (t3 P) (t3 N) cp nap)
+     = C04.Model.Ok (C04.Model.mkMS C04.Model.KP (t3 (mov o b P)) (t3 (rot b N)) cp nap)) /\
+  (S4.rows_orthonormal b ->
+   In l all_listings ->
+   (forall i, (i < 6)%nat -> carries u w (pl surfs i) (side_at l i)) ->
+   (forall i, (i < 6)%nat -> sd surfs i = planeSide RS c (pl surfs i) /\ sd surfs i <> 0%Z) ->
+   (forall k, wv w (k + 3) = vsub (vscale 2 c) (wv w k)) ->
+   ((forall k, 0 < det3 (vsub (wv w (k + 1)) (wv w k)) (vsub (wv w (k + 2)) (wv w (k + 1))) u) \/
+    (forall k, det3 (vsub (wv w (k + 1)) (wv w k)) (vsub (wv w (k + 2)) (wv w (k + 1))) u < 0)) ->
+   (List.length surfs = 6%nat \/
+    (List.length surfs = 8%nat /\ dot u (snd (pl surfs 6)) <> 0 /\ dot u (snd (pl surfs 7)) <> 0 /\
+     exists lam, snd (pl surfs 6) = vscale lam (snd (pl surfs 7)))) ->
+   exists vecs,
+     hexLatticeBaseVectors RS surfs = Ok vecs /\
+     hexLatticeBaseVectors RS (moved_surfs o b surfs) = Ok (map (rot b) vecs)).
+Proof.
+  intros o b c u w l surfs. split.
+  - intros P N cp nap. apply moved_plane_is_C04_transformation.
+  - intros Hb Hl Hc Hs Hsym Ht Hlen. exact (hex_base_vectors_moved o b c u w l surfs Hb Hl Hc Hs Hsym Ht Hlen).
+Qed.
+
+(* ================================================================== *)
+(* Families: each is literally the conjunction of the member theorems  *)
+(* above, so that one Print Assumptions audits the whole group.        *)
+(* ================================================================== *)
+(* algebra of the numeric helpers, reduction of areHexSidesAdjacent, latticeVector *)
+Theorem C07_family_algebra :
+  ltac:(let t := type of (conj C07_plane_intersection_on_both (conj C07_plane_intersection_direction (conj C07_project_on_plane (conj C07_axial_vector (conj C07_hex_translation (conj C07_proj_par_meaning (conj C07_side_constant_along_line (conj C07_adjacent_at_vertex C07_lattice_vector)))))))) in exact t).
+Proof. exact (conj C07_plane_intersection_on_both (conj C07_plane_intersection_direction (conj C07_project_on_plane (conj C07_axial_vector (conj C07_hex_translation (conj C07_proj_par_meaning (conj C07_side_constant_along_line (conj C07_adjacent_at_vertex C07_lattice_vector)))))))). Qed.
+Print Assumptions C07_family_algebra.
+
+(* the traversal on the 48 listings and on all six-intersection dictionaries; the range test of develop_lattice (no real numbers: closed under the global context) *)
+Theorem C07_family_combinatorics :
+  ltac:(let t := type of (conj C07_admissible_listings (conj C07_sort_and_vertices_all_orders (conj C07_walk_never_hangs_on_hexagons (conj C07_walk_ends_iff_closed_tour (conj C07_sort_count_error (conj C07_domain_check_spec C07_domain_check_error)))))) in exact t).
+Proof. exact (conj C07_admissible_listings (conj C07_sort_and_vertices_all_orders (conj C07_walk_never_hangs_on_hexagons (conj C07_walk_ends_iff_closed_tour (conj C07_sort_count_error (conj C07_domain_check_spec C07_domain_check_error)))))). Qed.
+Print Assumptions C07_family_combinatorics.
+
+(* the base vectors: geometry of the hexagon, main theorem, RHP/HEX cards *)
+Theorem C07_family_base_vectors :
+  ltac:(let t := type of (conj C07_hex_base_vectors_partial (conj C07_hex_adjacency_geometry (conj C07_hex_base_vectors (conj C07_base_vector_carries_opposite_plane (conj C07_regular_hexagon_in_family (conj C07_rhp_cell_hypotheses (conj C07_rhp15_lattice_vectors C07_rhp9_lattice_vectors))))))) in exact t).
+Proof. exact (conj C07_hex_base_vectors_partial (conj C07_hex_adjacency_geometry (conj C07_hex_base_vectors (conj C07_base_vector_carries_opposite_plane (conj C07_regular_hexagon_in_family (conj C07_rhp_cell_hypotheses (conj C07_rhp15_lattice_vectors C07_rhp9_lattice_vectors))))))). Qed.
+Print Assumptions C07_family_base_vectors.
+
+(* error behaviour outside the family of the main theorem *)
+Theorem C07_family_errors :
+  ltac:(let t := type of (conj C07_base_vectors_wrong_count (conj C07_intersection_error_iff (conj C07_sort_sides_outcomes (conj C07_base_vectors_parallel_planes (conj C07_collinear_sides_parallel (conj C07_caps_parallel_to_axis (conj C07_flipped_sense_lattice_error (conj C07_flipped_set_lattice_error C07_base_vectors_outcomes)))))))) in exact t).
+Proof. exact (conj C07_base_vectors_wrong_count (conj C07_intersection_error_iff (conj C07_sort_sides_outcomes (conj C07_base_vectors_parallel_planes (conj C07_collinear_sides_parallel (conj C07_caps_parallel_to_axis (conj C07_flipped_sense_lattice_error (conj C07_flipped_set_lattice_error C07_base_vectors_outcomes)))))))). Qed.
+Print Assumptions C07_family_errors.
+
+(* statements that import another property (C06: develop_lattice; C03: rhp) *)
+Theorem C07_family_linked :
+  ltac:(let t := type of (conj C07_hex_lattice_developed (conj C07_develop_lattice_hex_is_tied (conj C07_rhp_is_C03_rhp_linked C07_hex_base_vectors_trcl_linked))) in exact t).
+Proof. exact (conj C07_hex_lattice_developed (conj C07_develop_lattice_hex_is_tied (conj C07_rhp_is_C03_rhp_linked C07_hex_base_vectors_trcl_linked))). Qed.
+Print Assumptions C07_family_linked.
+
